@@ -109,6 +109,7 @@ class CellWorld:
         self.last_cycle = None  # (pre, result, queues) of the last cycle
         self.monitors = cfg.get('monitors', [])
         self.down_since_L = {}  # server -> logical second it went down
+        self.marked = set()     # (server, app) explicitly marked for unscheduling
         self.cycles = 0
 
     # -- glue mirroring Loader ------------------------------------------------
@@ -198,6 +199,7 @@ class CellWorld:
                 names = list(server.apps)
                 if body[2] < len(names):
                     server.apps[names[body[2]]].unschedule = True
+                    self.marked.add((body[1], names[body[2]]))
             server.set_state(State.frozen, CLOCK.time())
             self.down_since_L.pop(body[1], None)
         elif kind == 'srm':
